@@ -78,6 +78,54 @@ def al_bl(S):
         S.claim_eq(f'b{l}', b, b_ref)
 
 
+@obligation('C02.series.history', functions=[MLF + 'calculate_al_bl', MLF + 'AlBlFunctions.calculate_al_bl'],
+            nvalid=1,
+            bounds='a sequence of evaluations in one process: (m, x) = (1.33, 1.0000e-3), then the distinct nearby sphere '
+                   '(1.33, 1.0004e-3), then (1.33, 300), then (1.3300004, 300): every call returns the coefficients of '
+                   'ITS arguments (orders 1-2, SciPy Bessel functions evaluated concretely, relative tolerance 1e-7 of '
+                   'the coefficient\'s own size); concrete inputs - the solver only sees constant claims here')
+def al_bl_history(S):
+    _setup(S)
+    from scipy.special import spherical_jn as jn, spherical_yn as yn
+
+    def ref(m, x, l):
+        def psi(z):
+            return z * jn(l, z)
+
+        def dpsi(z):
+            return z * jn(l, z, derivative=True) + jn(l, z)
+
+        def xi(z):
+            return z * (jn(l, z) - 1j * yn(l, z))
+
+        def dxi(z):
+            return z * (jn(l, z, derivative=True) - 1j * yn(l, z, derivative=True)) + (jn(l, z) - 1j * yn(l, z))
+        mx = m * x
+        return ((psi(x) * dpsi(mx) - m * psi(mx) * dpsi(x)) / (xi(x) * dpsi(mx) - m * psi(mx) * dxi(x)),
+                (m * psi(x) * dpsi(mx) - psi(mx) * dpsi(x)) / (m * xi(x) * dpsi(mx) - psi(mx) * dxi(x)))
+    for tag, (m, x) in (('first', (1.33, 1.0000e-3)), ('nearby_size', (1.33, 1.0004e-3)),
+                        ('large', (1.33, 300.0)), ('nearby_index', (1.3300004, 300.0))):
+        for l in (1, 2):
+            a, b = mlf.calculate_al_bl(m, x, l)
+            ar, br = ref(m, x, l)
+            S.claim(f'{tag}.a{l}', bool(abs(complex(a) - complex(ar)) <= 1e-7 * abs(complex(ar))))
+            S.claim(f'{tag}.b{l}', bool(abs(complex(b) - complex(br)) <= 1e-7 * abs(complex(br))))
+
+
+@obligation('C02.series.pi_tau_integer_angles', functions=[MLF + 'calculate_pil_taul'], nvalid=1,
+            bounds='angles given as integers (0, 1, 2, 3 rad as an integer array, and the Python int 0): the angular '
+                   'functions equal those of the same angles given as floats (orders 1-5)')
+def pi_tau_integer_angles(S):
+    _setup(S)
+    pi_i, tau_i = mlf.calculate_pil_taul(np.array([0, 1, 2, 3]), 5)
+    pi_f, tau_f = mlf.calculate_pil_taul(np.array([0.0, 1.0, 2.0, 3.0]), 5)
+    S.claim_eq('pi', np.asarray(pi_i, dtype=float), np.asarray(pi_f, dtype=float))
+    S.claim_eq('tau', np.asarray(tau_i, dtype=float), np.asarray(tau_f, dtype=float))
+    p0, t0 = mlf.calculate_pil_taul(0, 5)
+    S.claim_eq('scalar_int.pi', np.asarray(p0, dtype=float).reshape(-1), np.asarray(pi_f, dtype=float)[0])
+    S.claim_eq('scalar_int.tau', np.asarray(t0, dtype=float).reshape(-1), np.asarray(tau_f, dtype=float)[0])
+
+
 def _legendre_derivs(c, lmax):
     """pi_l = P_l'(c), tau_l = c pi_l - (1 - c^2) pi_l'  from the Legendre polynomial coefficients"""
     P = [[1], [0, 1]]
